@@ -44,6 +44,8 @@ Cases == {
           "x := 5\nprint(1 < 2 == true, x > 7 != false, 1 == 2 == false == true)\nif x > 1 == true {\n\tprint(\"y\")\n} else {\n\tprint(\"n\")\n}\n"),
   CaseSrc("syn/C01/compare-chain-string", <<Def1("s", S("ab")), P(<<CmpE("==", CmpE("==", V("s"), S("ab")), BoolL(TRUE)), CmpE("==", CmpE("!=", V("s"), S("")), CmpE("==", V("s"), S("x")))>>)>>,
           "s := \"ab\"\nprint(s == \"ab\" == true, s != \"\" == (s == \"x\"))\n"),
+  CaseSrc("syn/C01/escape-spellings", <<Def1("s", S("ABC* z\t!")), P(<<V("s"), LenE(V("s")), CmpE("==", V("s"), S("ABC* z\t!"))>>)>>,
+          "s := \"\\101\\x42\\u0043\\052 z\\t\\041\"\nprint(s, len(s), s == \"ABC* z\\t!\")\n"),
   CaseSrc("syn/C01/var-forms", <<VarDef(<<"a", "b">>, "int", <<N(1), N(2)>>), VarDef(<<"c">>, "", <<N(5)>>), VarDef(<<"e">>, "error", <<Nil>>), P(<<V("a"), V("b"), V("c"), CmpE("==", V("e"), Nil)>>)>>,
           "var a, b int = 1, 2\nvar c = 5\nvar e error = nil\nprint(a, b, c, e == nil)\n"),
   CaseSrc("syn/C03/typed-slice-definitions", <<VarDef(<<"s">>, "[]int", <<>>), VarDef(<<"t">>, "[]string", <<SliceLit("string", <<S("a")>>)>>), P(<<LenE(V("s")), LenE(V("t"))>>), RangeS("i", "", V("t"), <<P(<<V("i")>>)>>)>>,
